@@ -211,7 +211,7 @@ func refReq(req *OracleReq) *OracleResp {
 			return &r
 		}
 	}
-	ctx, cancel := context.WithTimeout(context.Background(), 4*opHangLimit)
+	ctx, cancel := context.WithTimeout(context.Background(), 2*opHangLimit)
 	defer cancel()
 	cmd := exec.CommandContext(ctx, exe, "oracle")
 	cmd.Stdin = bytes.NewReader([]byte(mustJSON(req)))
